@@ -131,11 +131,13 @@ func c11Eval(c *fw.Ctx, data any) {
 
 	// build every message twice: the twin gives the expected bytes, the other one is submitted and never touched again
 	type item struct {
-		msg  util.Message
-		want []byte
+		msg   util.Message
+		want  []byte
+		again int // this many messages later the producer submits the very same object once more (a cached keep-alive)
 	}
 	items := make([][]item, P)
 	expected := map[uint32][]byte{}
+	expectedCount := map[uint32]int{} // how often each message object is submitted
 	total := 0
 	for p := 0; p < P; p++ {
 		for s := 0; s < M; s++ {
@@ -164,9 +166,22 @@ func c11Eval(c *fw.Ctx, data any) {
 				it.msg, _ = lib.BuildMessage(e)
 				c.Count("messages_replaced", 1)
 			}
+			xid := uint32(p)<<20 | uint32(s)
+			rr := prng.Derive(cs.MsgSeed, 4242, uint64(xid))
+			if rr.Chance(1, 10) {
+				// a pre-encoded frame handed over as a raw buffer (what a relay or a keep-alive cache would submit)
+				it.msg = util.NewBuffer(append([]byte(nil), it.want...))
+			}
+			if rr.Chance(1, 8) {
+				it.again = 1 + rr.Intn(3)
+			}
 			items[p] = append(items[p], it)
-			expected[uint32(p)<<20|uint32(s)] = it.want
-			total += len(it.want)
+			expected[xid] = it.want
+			expectedCount[xid] = 1
+			if it.again > 0 {
+				expectedCount[xid] = 2
+			}
+			total += len(it.want) * expectedCount[xid]
 		}
 	}
 	// full duplex: frames arrive on the same connection while the producers submit (the two directions share the
@@ -202,12 +217,30 @@ func c11Eval(c *fw.Ctx, data any) {
 			if cs.Barrier {
 				<-start
 			}
+			type pending struct {
+				at  int
+				msg util.Message
+			}
+			var resend []pending
 			for k := range items[p] {
 				s.stream.Outbound <- items[p][k].msg
+				if items[p][k].again > 0 {
+					resend = append(resend, pending{k + items[p][k].again, items[p][k].msg})
+				}
 				items[p][k].msg = nil
 				for y := 0; y < cs.ProdYield; y++ {
 					runtime.Gosched()
 				}
+				for i := 0; i < len(resend); i++ {
+					if resend[i].at <= k {
+						s.stream.Outbound <- resend[i].msg // the same object, untouched by the producer in between
+						resend = append(resend[:i], resend[i+1:]...)
+						i--
+					}
+				}
+			}
+			for _, r := range resend {
+				s.stream.Outbound <- r.msg
 			}
 		}(p)
 	}
@@ -260,14 +293,16 @@ func c11Eval(c *fw.Ctx, data any) {
 				viol("corrupt", "bytes-differ", fmt.Sprintf("message xid %#x: written bytes (%d) differ from its encoding (%d bytes) at offset %d\nwritten:  %s\nexpected: %s", xid, len(got), len(want), d, window(got, d), window(want, d)))
 			}
 			seen[xid]++
-			if seen[xid] == 2 {
-				viol("dup", "written-twice", fmt.Sprintf("message xid %#x was written more than once", xid))
+			if seen[xid] == expectedCount[xid]+1 {
+				viol("dup", "written-twice", fmt.Sprintf("message xid %#x was submitted %d time(s) and written %d times", xid, expectedCount[xid], seen[xid]))
 			}
 			p, sq := xid>>20, int(xid&0xfffff)
-			if ls, ok := lastSeq[p]; ok && sq < ls {
-				viol("order", "producer-order", fmt.Sprintf("producer %d: message %d was written after message %d", p, sq, ls))
+			if seen[xid] == 1 { // order is judged on first submissions (a re-submission legitimately appears later)
+				if ls, ok := lastSeq[p]; ok && sq < ls {
+					viol("order", "producer-order", fmt.Sprintf("producer %d: message %d was written after message %d", p, sq, ls))
+				}
+				lastSeq[p] = sq
 			}
-			lastSeq[p] = sq
 			if prevProd >= 0 && int(p) != prevProd {
 				c.Count("adjacent_pairs_from_different_producers", 1)
 			}
@@ -281,7 +316,7 @@ func c11Eval(c *fw.Ctx, data any) {
 	missing := 0
 	var first uint32
 	for xid := range expected {
-		if seen[xid] == 0 {
+		if seen[xid] < expectedCount[xid] {
 			if missing == 0 || xid < first {
 				first = xid
 			}
